@@ -194,6 +194,17 @@ CLAIMS = {
   "technique": "static analysis: constants vs. independently derived standards, structural decomposition of round statements (normal forms/truth tables)",
   "design_ref": "DESIGN.md section 4, C01",
  },
+ "C02": {
+  "text": "Structural clauses of the AES-CTR stream decided for both sibling implementations: the counter block is written only by "
+          "the agreed nonce/counter writers and fed to the cipher as nonce_be64 || blockindex_be64; each byte range is read before it is "
+          "written (in-place safety); re-initialisation resets position, nonce and the low-byte idiom on every path; the keystream "
+          "position bookkeeping (offset bytectr % 16, partial/whole/tail structure, cursors moving by exactly the bytes used, AES-NI "
+          "write-back of the last counter) agrees between the portable and the AES-NI code.",
+  "note": "NOT decided: FIPS-197 equality of the block cipher (OpenSSL / AES-NI numerics), partition independence and "
+          "encrypt-twice-restores as equalities of byte strings, counter carry beyond the low byte as a value property.",
+  "technique": "static analysis: who-may-write rule, sibling agreement, dominance/order rules on clang CFG",
+  "design_ref": "DESIGN.md section 4, C02",
+ },
 }
 
 NOT_APPLICABLE = {
